@@ -222,6 +222,17 @@ def _fixencoding(input, encoding, final=False):
     return None  # don't know yet
 
 
+def _codecinfo(encoding):
+    """
+    CodecInfo of a *text* encoding; like ``bytes.decode`` and ``str.encode``
+    refuses e.g. "rot13", "hex" or "zlib" (which an @charset rule may name)
+    """
+    info = codecs.lookup(encoding)
+    if not getattr(info, "_is_text_encoding", True):
+        raise LookupError("%r is not a text encoding" % encoding)
+    return info
+
+
 def decode(input, errors="strict", encoding=None, force=True):
     try:
         # py 3 only, memory?! object to bytes
@@ -239,7 +250,7 @@ def decode(input, errors="strict", encoding=None, force=True):
             encoding = _encoding
 
     # NEEDS: change in parse.py (str to bytes!)
-    (input, consumed) = codecs.getdecoder(encoding)(input, errors)
+    (input, consumed) = _codecinfo(encoding).decode(input, errors)
     return (_fixencoding(input, str(encoding), True), consumed)
 
 
@@ -256,7 +267,7 @@ def encode(input, errors="strict", encoding=None):
         input = _fixencoding(input, str(encoding), True)
     if encoding == "css":
         raise ValueError("css not allowed as encoding name")
-    encoder = codecs.getencoder(encoding)
+    encoder = _codecinfo(encoding).encode
     return (encoder(input, errors)[0], consumed)
 
 
@@ -319,7 +330,7 @@ class IncrementalDecoder(codecs.IncrementalDecoder):
                 ) or self.encoding is None:  # Take the encoding from the input
                     self.encoding = encoding
             self.buffer = ""  # drop buffer, as the decoder might keep its own
-            decoder = codecs.getincrementaldecoder(self.encoding)
+            decoder = _codecinfo(self.encoding).incrementaldecoder
             self.decoder = decoder(self._errors)
         if self.headerfixed:
             return self.decoder.decode(input, final)
@@ -373,7 +384,7 @@ class IncrementalDecoder(codecs.IncrementalDecoder):
         self.buffer = state[1]
         self.headerfixed = state[2]
         if state[3] is not None:
-            self.decoder = codecs.getincrementaldecoder(self.encoding)(self._errors)
+            self.decoder = _codecinfo(self.encoding).incrementaldecoder(self._errors)
             self.decoder.setstate(state[4])
         else:
             self.decoder = None
@@ -420,7 +431,7 @@ class IncrementalEncoder(codecs.IncrementalEncoder):
             if self.encoding is not None:
                 if self.encoding == "css":
                     raise ValueError("css not allowed as encoding name")
-                info = codecs.lookup(self.encoding)
+                info = _codecinfo(self.encoding)
                 encoding = self.encoding
                 if self.encoding.replace("_", "-").lower() == "utf-8-sig":
                     input = _fixencoding(input, "utf-8", True)
@@ -459,7 +470,7 @@ class IncrementalEncoder(codecs.IncrementalEncoder):
         self.encoding = state[0]
         self.buffer = state[1]
         if state[2] is not None:
-            self.encoder = codecs.getincrementalencoder(self.encoding)(self._errors)
+            self.encoder = _codecinfo(self.encoding).incrementalencoder(self._errors)
             self.encoder.setstate(state[4])
         else:
             self.encoder = None
@@ -494,7 +505,7 @@ class StreamWriter(codecs.StreamWriter):
             if self.encoding is not None:
                 if self.encoding == "css":
                     raise ValueError("css not allowed as encoding name")
-                self.streamwriter = codecs.getwriter(self.encoding)(
+                self.streamwriter = _codecinfo(self.encoding).streamwriter(
                     self.stream, self._errors
                 )
                 encoding = self.encoding
@@ -543,7 +554,7 @@ class StreamReader(codecs.StreamReader):
                     explicit and not self.force
                 ) or self.encoding is None:  # Take the encoding from the input
                     self.encoding = encoding
-            streamreader = codecs.getreader(self.encoding)
+            streamreader = _codecinfo(self.encoding).streamreader
             streamreader = streamreader(self.stream, self._errors)
             (output, consumed) = streamreader.decode(input, errors)
             encoding = self.encoding
